@@ -43,6 +43,10 @@ def harnesses(ctx, pairs):
           ("c01", "c01.cpp", lambda tr: [tr, "small" if ctx.quick else "quick"])]
     if not ctx.quick:
         hs += [("c18", "c18.cpp", lambda tr: [tr, pairs, "quick"]), ("c06", "c06.cpp", lambda tr: [tr, "quick"])]
+    else:
+        # quick: the power-of-two / multiple / bitfield utilities under the optimisation-level and compiler variants only (shift and
+        # promotion idioms are where -O0 and -O3 / clang part company)
+        hs += [("c18", "c18.cpp", lambda tr: [tr, pairs, "quick"], lambda lab: lab in ("O3", "clang-O2"))]
     # the quaternion / transform / projection / geometry harnesses: quaternion storage order, CTOR_INIT, language-level bodies of the
     # conversion constructors ... reach code the op-table harnesses above do not.  quick: under the combined-macro and the CXX98 variants.
     sel = (lambda lab: lab.startswith("CXX11+INLINE+CTOR_INIT+EXPLICIT_CTOR+UNRESTRICTED+WXYZ") or lab == "CXX98") if ctx.quick else (lambda lab: True)
